@@ -1,22 +1,8 @@
-import Sylvia.Model.Inter
-import Sylvia.Model.Lex
+import Sylvia.Driver.Loop
 import Sylvia.Extracted.UtilsFns
-import Sylvia.Model.Casing
-import Sylvia.Driver.Util
-import Sylvia.Driver.Ops
-import Sylvia.Driver.MtOps
-import Sylvia.Model.WF
-/-! `svmodel`: one operation per input line, one canonical line of output per operation.
-The same operation files are fed to the Rust harnesses; the streams are diffed by ./check. -/
-open Driver
-
-def parseLists (s : String) : List (List (List Nat)) :=
-  if s == "-" then [] else
-  (s.splitOn "|").map fun arr => if arr.isEmpty then [] else (arr.splitOn ",").map unhexBytes
-
-def opInter (rest : String) : String :=
-  match Inter.assertNoIntersection Lex.lexLt (parseLists rest) with
-  | some true => "ok" | some false => "panic" | none => "fuel"
+import Sylvia.Driver.BridgeOps
+/-! `svmodel`: the model driver, with the operations that run the functions regenerated from the Rust source. -/
+open DriverLoop Driver
 
 /-- the functions regenerated from sylvia/src/utils.rs by the function translator, run on the same tuples -/
 def opInterX (rest : String) : String :=
@@ -25,37 +11,10 @@ def opInterX (rest : String) : String :=
   match Extracted.Utils.assert_no_intersection Lex.cmpBytes fuel msgs.length msgs with
   | .ok _ => "ok" | .panic => "panic" | .oof => "fuel"
 
-open Casing in
-def opCase (rest : String) : String :=
-  match identOfString rest with
-  | none => "bad-op"
-  | some n =>
-    let camel := ccUpperCamel n
-    s!"{identToString camel} {identToString (ccSnake camel)} {identToString (ccUpperSnake n)} {identToString (serdeSnake camel)}"
-
-def handle (line : String) : String :=
-  let (op, rest) := splitOp line
+def extra (op rest : String) : Option String :=
   match op with
-  | "inter" => opInter rest
-  | "interx" => opInterX rest
-  | "case" => opCase rest
-  | _ => "bad-op " ++ op
+  | "interx" => some (opInterX rest)
+  | "intorespx" => some (Driver.opIntoRespX rest)
+  | _ => none
 
-partial def loop (h : IO.FS.Stream) (out : IO.FS.Stream) (st : State) : IO Unit := do
-  let line ← h.getLine
-  if line.isEmpty then return ()
-  let l := if line.endsWith "\n" then (line.dropEnd 1).toString else line
-  let (op, rest) := splitOp l
-  if op == "mtp" then out.putStrLn (Driver.opMtp st rest); loop h out st
-  else if op == "mtr" then out.putStrLn (Driver.opMtr st rest); loop h out st
-  else if op == "wf" then out.putStrLn (toString (Sylvia.Gen.progWFb (Driver.progOf st))); loop h out st
-  else if op == "mtlower" then out.putStrLn (Driver.opMtlower st rest); loop h out st
-  else
-  match step st l with
-  | (st', some r) => out.putStrLn r; loop h out st'
-  | (st', none) => out.putStrLn (handle l); loop h out st'
-
-def main : IO Unit := do
-  let out ← IO.getStdout
-  loop (← IO.getStdin) out {}
-  out.flush
+def main : IO Unit := mainWith extra
